@@ -15,6 +15,7 @@ ID = "C01"
 LEVEL = "exploration"
 EXHAUSTIVE = False
 SHARDS = {"quick": 8, "thorough": 16}
+TIME_LIMIT = {"quick": int(__import__("os").environ.get("VERIF_QUICK_LIMIT", "900")), "thorough": 14400}
 TECHNIQUE = "Hypothesis-generated argument tuples per (class, table, call path) decoded by an independent standards model (differential oracle); complete single-bit walk of every field in thorough"
 RULE = (
     "one case = (command, table, path in {ctor, facade, marshall}, argument dict, omitted optionals); "
@@ -281,7 +282,7 @@ def _fix_data(cmd, a):
 def run(ctx):
     subs = subjects()
     ctx.extra["class_table_pairs"] = len(subs)
-    n_ctor = ctx.n(60 * 8, 1500 * 16)
+    n_ctor = ctx.n(60 * 8, 1000 * 16)
     for idx, (cmd, table) in enumerate(subs):
         name = "%s@%s" % (cmd.name, table)
         common.search(ctx, name + ":ctor", gen.args(cmd), make_check(cmd, table, "ctor"), n_ctor)
